@@ -78,7 +78,9 @@ func TestC22(t *testing.T) {
 	r.Rule = "linear chains with up/core/down segments totalling up to 64 hop fields and comb-shaped trees (shortcut joins at every " +
 		"depth, peering links at every depth) x 3 key sets x 3 border-router layouts x all AS pairs (both directions) x every " +
 		"combinator path; at every router traversal the accumulator value the router uses for each hop field it validates is " +
-		"compared with the construction-time value recovered from the registered segments"
+		"compared with the construction-time value recovered from the registered segments; x faults at every segment-boundary hop " +
+		"field and one rotating further hop field of every path: the SCMP error reply of the real router is walked back to the " +
+		"source under the same comparison"
 	type tcase struct {
 		tp     *netsim.Topo
 		maxLen int
@@ -102,6 +104,7 @@ func TestC22(t *testing.T) {
 	}
 	bubble(t, func(t *testing.T) {
 		var walks, hops, checked int64
+		var fx c22xStats
 		maxHops := 0
 		for _, salt := range mc.Pick([]string{"", "/k2"}, []string{"", "/k2", "/k3"}) {
 			netsim.KeySalt = salt
@@ -196,6 +199,8 @@ func TestC22(t *testing.T) {
 								continue
 							}
 							r.Outcome(fmt.Sprintf("synchronised/%d-segments", len(lay.InfoOff)))
+							// router-generated return traffic: SCMP replies to faults planted along this path
+							c22FaultWalks(r, n, sigma, src, p, raw, key, walks, &fx)
 							if walks%701 == 1 {
 								r.Sample(det)
 							}
@@ -205,12 +210,15 @@ func TestC22(t *testing.T) {
 			}
 		}
 		netsim.KeySalt = ""
-		r.AddGraph(walks, hops, walks)
+		r.AddGraph(walks+fx.walks, hops+fx.hops, walks+fx.walks)
+		r.Extra["scmp_fault_walks"] = fx.walks
+		r.Extra["scmp_reply_hop_validations_compared"] = fx.checked
 		r.Extra["paths_walked"] = walks
 		r.Extra["hop_validations_compared"] = checked
 		r.Extra["max_hop_fields_in_a_path"] = maxHops
 	})
 	r.Assumptions = []string{"MAC values are concrete AES-CMAC outputs under 2-3 key sets, not symbolic: a desynchronised accumulator is observed as an explicit value mismatch at the router and (with probability 1-2^-48 per hop) as a rejected packet",
+		"SCMP replies: the fault is an invalid hop-field MAC (last MAC byte), raised by the external-ingress router of the AS (after the cross-over at a segment change); when the quoted packet is truncated below its L4 header (1232-byte SCMP limit, paths of about 45+ hop fields) delivery to the host is not demanded, only acceptance up to and including the source-AS router",
 		"long chains: AS pairs are restricted to those involving an end or join AS plus a stripe; comb topologies: all pairs"}
 	r.Finish(2)
 }
